@@ -25,6 +25,14 @@ var allShapes = []cmdShape{
 	{Args: []string{"reg", "-s", "cal", "--csv"}, Db: true, Log: true, Period: true, OwnBE: true},
 	{Args: []string{"reg", "-s", "cal", "-g"}, Db: true, Log: true, Period: true, OwnBE: true},
 	{Args: []string{"reg", "-f", "r"}, Db: true, Log: true, Period: true, OwnBE: true},
+	// pairs of flags that are implemented in different places and meet in one run
+	{Args: []string{"reg", "-s", "cal", "-g", "--csv"}, Db: true, Log: true, Period: true, OwnBE: true},
+	{Args: []string{"reg", "-s", "cal", "--no-totals"}, Db: true, Log: true, Period: true, OwnBE: true},
+	{Args: []string{"reg", "--shorten", "--totals-only"}, Db: true, Log: true, Period: true, OwnBE: true},
+	{Args: []string{"reg", "--use-old-reg-reporter", "--shorten"}, Db: true, Log: true, Period: true, OwnBE: true},
+	{Args: []string{"reg", "-f", "r", "--csv"}, Db: true, Log: true, Period: true, OwnBE: true},
+	{Args: []string{"bal", "-c", "--collapse-last"}, Db: true, Log: true, Period: true, OwnBE: true},
+	{Args: []string{"bal", "-s", "cal", "--collapse-last"}, Db: true, Log: true, Period: true, OwnBE: true},
 	{Args: []string{"bal"}, Db: true, Log: true, Period: true, OwnBE: true},
 	{Args: []string{"bal", "-c"}, Db: true, Log: true, Period: true, OwnBE: true},
 	{Args: []string{"bal", "--collapse-last"}, Db: true, Log: true, Period: true, OwnBE: true},
